@@ -108,6 +108,7 @@ def stepModel (st : St Cbuf) (line : String) : St Cbuf × String :=
   match ws0.takeWhile (· ≠ "@") with
   | ["reset"] => ({}, "ok")
   | ["eintr", _] => (st, "ok")      -- interrupted read()/write() calls are retried: no effect
+  | ["errno", _] => (st, "ok")      -- which errno an exhausted source / sink fails with: no effect
   | ["sel", i] => ({ st with second := i = "1" }, "ok")
   | ["create", mn, mx, smeta] =>
     match mn.toInt?, mx.toInt?, smeta.toNat? with
@@ -148,6 +149,7 @@ def stepSpec (st : St Spec.RFifo) (line : String) : St Spec.RFifo × String :=
   match ops with
   | ["reset"] => ({}, "ok")
   | ["eintr", _] => (st, "ok")      -- EINTR is not an answer of any call: the property is unaffected
+  | ["errno", _] => (st, "ok")      -- the property does not distinguish the errors of a descriptor
   | ["sel", i] => ({ st with second := i = "1" }, "ok")
   | ["create", mn, mx, _] =>
     match mn.toInt?, mx.toInt? with
